@@ -11,22 +11,6 @@ explicit functions, what they keep (`CReady` resp. `CStat`), and the step machin
 namespace Iodine.C02L
 open Iodine Iodine.Gen Iodine.World
 
-/-- `QuietImmD` with the freshness slack of the two duplicate memories as parameters: `sl` for the data-CMC counter (`Aged`),
-`sp` for the ping counter (`PAged`).  `QuietImmDS P du dd 1 1 = QuietImmD P du dd`. -/
-structure QuietImmDS (P : Par) (du dd sl sp : Nat) (w : W) : Prop where
-  ph : w.cs.ph = .tunnel
-  cst : CStat P w.cs.c
-  idleC : Client.isSending w.cs.c = false
-  up : w.up = []
-  down : w.down = []
-  srv : SStat P w.srv
-  idle : IdleImm (Server.getUser w.srv P.u)
-  oq : (Server.getUser w.srv P.u).oqFilled = 0
-  syncu : w.cs.c.outpkt.seqno = ((Server.getUser w.srv P.u).inpacket.seqno + du) % 8
-  syncd : (Server.getUser w.srv P.u).outpacket.seqno = (w.cs.c.inpkt.seqno + dd) % 8
-  aged : Aged P (Server.getUser w.srv P.u) w.cs.c.datacmc sl
-  paged : PAged P (Server.getUser w.srv P.u) w.cs.c.randSeed sp
-
 theorem quietImmDS_one {P : Par} {du dd : Nat} {w : W} : QuietImmDS P du dd 1 1 w ↔ QuietImmD P du dd w :=
   ⟨fun h => ⟨h.ph, h.cst, h.idleC, h.up, h.down, h.srv, h.idle, h.oq, h.syncu, h.syncd, h.aged, h.paged⟩,
    fun h => ⟨h.ph, h.cst, h.idleC, h.up, h.down, h.srv, h.idle, h.oq, h.syncu, h.syncd, h.aged, h.paged⟩⟩
@@ -43,10 +27,6 @@ theorem QuietImmDS.mono {P : Par} {du dd sl sp sl' sp' : Nat} {w : W} (h : Quiet
 theorem QuietImmDS.mod8 {P : Par} {du dd sl sp : Nat} {w : W} (h : QuietImmDS P du dd sl sp w) :
     QuietImmDS P (du % 8) dd sl sp w :=
   ⟨h.ph, h.cst, h.idleC, h.up, h.down, h.srv, h.idle, h.oq, by have := h.syncu; omega, h.syncd, h.aged, h.paged⟩
-
-theorem QuietImmDS.quiet {P : Par} {du dd sl sp : Nat} {w : W} (h : QuietImmDS P du dd sl sp w) : quiet P.u w = true := by
-  unfold World.quiet
-  simp [h.up, h.down, h.idleC, h.idle.out, h.oq, h.idle.qs, h.idle.lazy, h.idle.q]
 
 /-! ### what `CReady` survives -/
 
